@@ -29,6 +29,7 @@ def run(chk):
     n_cases = 120 if chk.tier == "quick" else 1500
     terms, metas = [], []
     modes = ["model", "shift", "tail10", "tail100", "tail1000", "tail3000", "dup"]
+    earlier = None          # (machine, samples, scores) of the previous case: machines do not share any derived state
     for i in range(n_cases):
         C = r.choice([1, 2, 3, 4, 6]) if i % 7 else r.choice([1, 8])
         D = r.choice([1, 2, 3, 5])
@@ -50,6 +51,9 @@ def run(chk):
             w[tiny] = r.choice([1e-20, 1e-120, 1e-300])
             rest = [k for k in range(C) if k != tiny]
             w[rest] = w[rest] / w[rest].sum() * (1.0 - w[tiny])
+        if i % 8 == 6 and tiny is None:
+            # positive weights need not sum to one (counts, un-normalised priors): the mixture density is the weighted sum all the same
+            w = np.asarray(w, dtype=float) * r.choice([0.5, 8.0, 37.0])
         order = "floors-first" if i % 4 else "floors-raised-after-variances"
         if order == "floors-first":
             m = make_gmm(w, mu, var, thr=thr)
@@ -119,6 +123,26 @@ def run(chk):
                     break
             m.weights = np.asarray(w)
             chk.count(1, key=("rescore-after-set-weights", C))
+        # the same values in other containers / memory layouts score identically
+        if i % 5 == 1:
+            for lname, Xl in gen.layouts(X):
+                try:
+                    ll_l = np.asarray(m.log_likelihood(Xl))
+                    st_l = m.acc_stats(Xl)
+                except Exception as e:
+                    chk.fail("log_likelihood / acc_stats on a %s input raises %r" % (lname, e), {"layout": lname, "x": hexlist(X), "shape": [C, D]})
+                    continue
+                chk.count(1, key=("layout", lname))
+                if not (np.array_equal(ll_l, np.asarray(m.log_likelihood(X))) and np.allclose(np.asarray(st_l.sum_pxx), np.asarray(m.acc_stats(X).sum_pxx), rtol=1e-12, atol=0)):
+                    chk.fail("log_likelihood / acc_stats differ for the same values given as %s" % lname, {"layout": lname, "x": hexlist(X), "shape": [C, D]})
+        if earlier is not None:
+            m_e, X_e, ll_e = earlier
+            again = np.asarray(m_e.log_likelihood(X_e))
+            if not np.array_equal(again, ll_e):
+                chk.fail("a machine scores differently after ANOTHER machine was constructed / had its parameters assigned (shared derived state)",
+                         {"entry": "score A; build B; score A", "x": hexlist(X_e), "weights": hexlist(m_e.weights), "means": hexlist(m_e.means),
+                          "variances": hexlist(m_e.variances), "shape": list(np.asarray(m_e.means).shape), "before": hexlist(ll_e), "after": hexlist(again)})
+        earlier = (m, np.array(X), np.array(ll))
         # acc_stats log-likelihood is the sum
         st = m.acc_stats(X)
         if not abs(float(st.log_likelihood) - float(ll.sum())) <= 1e-9 * max(1.0, abs(float(ll.sum()))):
